@@ -1,0 +1,143 @@
+//go:build verif
+
+package hclwrite
+
+// Contracts for the hvc verifier (/verif). Comment-only.
+//
+// C20 (the part a contract can state): the formatter writes nothing but the
+// SpacesBefore field of tokens; loading native tokens into writer tokens keeps
+// every token's type and bytes and records the gap before it; serialising
+// writes, token by token, that many spaces and then the token's bytes.
+
+//@ spec nn(ts) = forall(k, 0, len(ts), ts[k] != nil)
+
+// "formatting changes nothing but spaces, tabs and indentation": the only
+// memory the formatter may write is Token.SpacesBefore (of any token) and
+// storage it allocated itself.
+//@ func format(tokens Tokens)
+//@   requires nonnil: nn(tokens)
+//@   modifies allof(Token.SpacesBefore)
+
+// a token ends a line if it is a newline or a single-line comment (which carries its newline)
+//@ spec isnl(t) = t.Type == hclsyntax.TokenNewline || (t.Type == hclsyntax.TokenComment && len(t.Bytes) > 0 && t.Bytes[len(t.Bytes)-1] == 10)
+// number of line-ending tokens among the last k tokens
+//@ recspec suf(k, ts) = ite(k <= 0, 0, suf(k-1, ts) + ite(isnl(ts[len(ts)-k]), 1, 0))
+// a line's cells hold tokens (never nil), and the assign and comment cells are absent or non-empty
+//@ spec wfLine(l) = nn(l.lead) && nn(l.assign) && nn(l.comment) && (l.assign == nil || len(l.assign) > 0) && (l.comment == nil || len(l.comment) > 0)
+//@ spec wfLines(ls) = forall(j, 0, len(ls), wfLine(ls[j]))
+
+//@ func linesForFormat(tokens Tokens) (r []formatLine)
+//@   requires nonnil: nn(tokens)
+//@   ensures wf: wfLines(r)
+//@   loop "for _, tok := range tokens"
+//@     invariant count: lineCount + suf(len(tokens) - idx__, tokens) == 1 + suf(len(tokens), tokens)
+//@   loop "for i, tok := range tokens"
+//@     invariant own: fresh(arrayof(lines)) && len(lines) == lineCount && lineCount == 1 + suf(len(tokens), tokens)
+//@     invariant at: li + suf(len(tokens) - idx__, tokens) == suf(len(tokens), tokens) && 0 <= li && 0 <= lineStart && lineStart <= idx__
+//@     invariant wf: wfLines(lines)
+//@   loop "for i := range lines"
+//@     invariant own: fresh(arrayof(lines))
+//@     invariant wf: wfLines(lines)
+//@   loop "for i, tok := range line.lead"
+//@     invariant wf: wfLines(lines) && fresh(arrayof(lines))
+//@   loop "for _, token := range line.lead[i:]"
+//@     invariant wf: wfLines(lines) && fresh(arrayof(lines))
+
+//@ func formatIndent(lines []formatLine)
+//@   requires wf: wfLines(lines)
+//@   modifies allof(Token.SpacesBefore)
+//@   loop "for i := range lines"
+//@     invariant own: cap(indents) == 0 || fresh(arrayof(indents))
+//@   loop "for closed > 0 && len(indents) > 0"
+//@     invariant own: cap(indents) == 0 || fresh(arrayof(indents))
+
+//@ func formatSpaces(lines []formatLine)
+//@   requires wf: wfLines(lines)
+//@   modifies allof(Token.SpacesBefore)
+
+//@ func formatCells(lines []formatLine)
+//@   requires wf: wfLines(lines)
+//@   modifies allof(Token.SpacesBefore)
+//@   loop "for i, line := range lines" #1
+//@     invariant lo: -1 <= chainStart && chainStart <= idx__
+//@     invariant strict: chainStart != -1 ==> chainStart < idx__
+//@     invariant chain: chainStart != -1 ==> forall(j, chainStart, idx__, lines[j].assign != nil)
+//@   loop "for i, line := range lines" #2
+//@     invariant chain: -1 <= chainStart && chainStart <= idx__ && (chainStart != -1 ==> (chainStart < idx__ && forall(j, chainStart, idx__, lines[j].comment != nil)))
+
+//@ func formatCells$1(i int, lines *[]formatLine, chainStart *int, maxColumns *int)
+//@   requires wf: wfLines(*lines)
+//@   requires cells: chainStart != maxColumns
+//@   requires chain: 0 <= *chainStart && *chainStart <= i && i <= len(*lines) && forall(j, *chainStart, i, (*lines)[j].assign != nil)
+//@   modifies allof(Token.SpacesBefore), *chainStart, *maxColumns
+//@   ensures reset: *chainStart == -1
+//@ func formatCells$2(i int, lines *[]formatLine, chainStart *int, maxColumns *int)
+//@   requires wf: wfLines(*lines)
+//@   requires cells: chainStart != maxColumns
+//@   requires chain: 0 <= *chainStart && *chainStart <= i && i <= len(*lines) && forall(j, *chainStart, i, (*lines)[j].comment != nil)
+//@   modifies allof(Token.SpacesBefore), *chainStart, *maxColumns
+//@   ensures reset: *chainStart == -1
+
+//@ spec opener(t) = t.Type == hclsyntax.TokenOBrace || t.Type == hclsyntax.TokenOBrack || t.Type == hclsyntax.TokenOParen || t.Type == hclsyntax.TokenTemplateControl || t.Type == hclsyntax.TokenTemplateInterp
+//@ spec closer(t) = t.Type == hclsyntax.TokenCBrace || t.Type == hclsyntax.TokenCBrack || t.Type == hclsyntax.TokenCParen || t.Type == hclsyntax.TokenTemplateSeqEnd
+//@ func tokenIsNewline(tok *Token) (r bool)
+//@   requires nonnil: tok != nil
+//@   pure
+//@   ensures def: r == isnl(tok)
+//@ func tokenBracketChange(tok *Token) (r int)
+//@   requires nonnil: tok != nil
+//@   pure
+//@   ensures def: r == ite(opener(tok), 1, ite(closer(tok), -1, 0))
+
+//@ func (ts Tokens) Columns() (r int)
+//@   requires nonnil: nn(ts)
+//@   pure
+//@   loop "for _, token := range ts"
+//@     invariant nonnil: nn(ts)
+
+// "the formatted file parses to the same tree" needs, at the least, that two
+// word-like tokens (identifiers, keywords, numbers) are never glued together.
+//@ spec wordlike(t) = t.Type == hclsyntax.TokenIdent || t.Type == hclsyntax.TokenNumberLit
+//@ func spaceAfterToken(subject *Token, before *Token, after *Token) (r bool)
+//@   requires nonnil: subject != nil && before != nil && after != nil
+//@   pure
+//@   ensures words: (wordlike(subject) && wordlike(after)) ==> r
+//@   ensures eol: (after.Type == hclsyntax.TokenNewline || after.Type == hclsyntax.TokenNil) ==> !r
+
+// Serialising: token by token, SpacesBefore blanks (none if the count is not
+// positive) and then the token's bytes, nothing else; the byte count returned
+// is the sum of both over all tokens.
+//@ recspec wtotal(k, ts) = ite(k <= 0, 0, wtotal(k-1, ts) + ite(ts[k-1].SpacesBefore > 0, ts[k-1].SpacesBefore, 0) + len(ts[k-1].Bytes))
+//@ func (ts Tokens) WriteTo(wr io.Writer) (n int64, err error)
+//@   requires nonnil: nn(ts) && wr != nil
+//@   modifies ghostint(wr, "total"), ghostbytes(wr, "written")
+//@   ensures count: err == nil ==> n == wtotal(len(ts), ts)
+//@   ensures sink:  err == nil ==> ghostint(wr, "total") == old(ghostint(wr, "total")) + n
+//@   guard-call blanks: "Write#1" forall(k, 0, len(arg(1)), arg(1)[k] == 32)
+//@   guard-call text:   "Write#2" sameslice(arg(1), token.Bytes)
+//@   loop "for i := range spaces"
+//@     invariant fill: forall(k, 0, idx__, spaces[k] == 32) && fresh(arrayof(spaces)) && len(spaces) == 40
+//@   loop "for _, token := range ts"
+//@     invariant blanks: forall(k, 0, 40, spaces[k] == 32) && fresh(arrayof(spaces)) && len(spaces) == 40
+//@     invariant at: err == nil ==> (n == wtotal(idx__, ts) && ghostint(wr, "total") == old(ghostint(wr, "total")) + n)
+//@   loop "for spacesBefore := token.SpacesBefore; spacesBefore > 0; spacesBefore -= len(spaces)"
+//@     invariant blanks: forall(k, 0, 40, spaces[k] == 32) && fresh(arrayof(spaces)) && len(spaces) == 40
+//@     invariant at: err == nil && n == loopentry(n) + max(token.SpacesBefore, 0) - max(spacesBefore, 0) && ghostint(wr, "total") == old(ghostint(wr, "total")) + n
+//@     decreases spacesBefore
+
+// Loading: one writer token per native token, in order, with the native
+// token's type, a private copy of its bytes, and the gap between the previous
+// token's end and this token's start as SpacesBefore. (The returned slice holds
+// the addresses &tokBuf[i]; pointers into an array are outside the memory
+// model, so the contents are stated over tokBuf.)
+//@ spec loaded(t, nat, i) = t.Type == nat[i].Type && t.Bytes == nat[i].Bytes && t.SpacesBefore == nat[i].Range.Start.Byte - ite(i == 0, 0, nat[i-1].Range.End.Byte)
+//@ func writerTokens(nativeTokens hclsyntax.Tokens) (r Tokens)
+//@   ensures same: len(r) == len(nativeTokens)
+//@   ensures-local buf: len(tokBuf) == len(nativeTokens) && forall(i, 0, len(tokBuf), loaded(tokBuf[i], nativeTokens, i))
+//@   loop "for i, mainToken := range nativeTokens"
+//@     invariant own: fresh(arrayof(tokBuf)) && len(tokBuf) == len(nativeTokens)
+//@     invariant last: lastByteOffset == ite(idx__ == 0, 0, nativeTokens[idx__-1].Range.End.Byte)
+//@     invariant done: forall(j, 0, idx__, loaded(tokBuf[j], nativeTokens, j))
+//@   loop "for i := range ret"
+//@     invariant own: fresh(arrayof(tokBuf)) && fresh(arrayof(ret)) && len(ret) == len(tokBuf) && len(tokBuf) == len(nativeTokens)
+//@     invariant done: forall(j, 0, len(tokBuf), loaded(tokBuf[j], nativeTokens, j))
